@@ -43,6 +43,7 @@ type Result struct {
 	SchedHash   uint64
 	States      []uint64
 	Trace       []string
+	Notes       []simrt.Event // simrt.Note observations in simulated-time order
 	Goroutines  []string
 }
 
@@ -105,6 +106,10 @@ func Run(t *testing.T, cfg Cfg, body func(sim *simrt.Sim, root context.Context))
 		h := fnv.New64a()
 		st := map[uint64]bool{}
 		for _, e := range evs {
+			if e.Cap == -2 {
+				res.Notes = append(res.Notes, e)
+				continue
+			}
 			fmt.Fprintf(h, "%s|%s\n", e.G, e.Site)
 			if e.Len >= 0 {
 				sh := fnv.New64a()
@@ -118,6 +123,9 @@ func Run(t *testing.T, cfg Cfg, body func(sim *simrt.Sim, root context.Context))
 		}
 		if cfg.KeepTrace {
 			for _, e := range evs {
+				if e.Cap == -2 {
+					continue
+				}
 				if e.Len >= 0 {
 					res.Trace = append(res.Trace, fmt.Sprintf("%d %s %s len=%d/%d", e.T-t0.UnixNano(), e.G, e.Site, e.Len, e.Cap))
 				} else {
